@@ -5,6 +5,8 @@ package main
 
 import (
 	"fmt"
+	"math"
+	"strings"
 
 	cfgpkg "github.com/open-telemetry/otel-arrow/pkg/config"
 	"go.opentelemetry.io/collector/pdata/pcommon"
@@ -208,6 +210,220 @@ func distinctBatch(sig, n, base int) any {
 	}
 }
 
+// distinctRich: like distinctBatch, with every string column of the main record and of the related records fresh as well:
+// when own is set each item sits in its own resource and scope (distinct schema urls, scope names and versions), and every
+// item carries attributes with a fresh key and a fresh string value, and (traces) an event and a link, (metrics) a data
+// point with an attribute and an exemplar.
+func distinctRich(sig, n, base int, own bool) any {
+	id8 := func(i int) [8]byte { return [8]byte{byte(i >> 24), byte(i >> 16), byte(i >> 8), byte(i), 3, 3, 3, 3} }
+	id16 := func(i int) [16]byte {
+		return [16]byte{byte(i >> 24), byte(i >> 16), byte(i >> 8), byte(i), 8, 7, 6, 5, 4, 3, 2, 1, 9, 9, 9, 9}
+	}
+	attrs := func(m pcommon.Map, tag string, i int) {
+		m.PutStr(fmt.Sprintf("%s-key-%d", tag, i), fmt.Sprintf("%s-val-%d", tag, i))
+		m.PutInt("n", int64(i))
+		m.PutDouble("d", float64(i)+0.5)
+		m.PutEmptyBytes("b").FromRaw([]byte(fmt.Sprintf("bytes-%d", i)))
+	}
+	res := func(r pcommon.Resource, i int) { attrs(r.Attributes(), "res", i) }
+	scope := func(sc pcommon.InstrumentationScope, i int) {
+		sc.SetName(fmt.Sprintf("scope-%d", i))
+		sc.SetVersion(fmt.Sprintf("v-%d", i))
+		attrs(sc.Attributes(), "scope", i)
+	}
+	switch sig {
+	case 0:
+		td := ptrace.NewTraces()
+		var ss ptrace.ScopeSpans
+		for k := 0; k < n; k++ {
+			i := base + k
+			if own || k == 0 {
+				rs := td.ResourceSpans().AppendEmpty()
+				rs.SetSchemaUrl(fmt.Sprintf("res-url-%d", i))
+				res(rs.Resource(), i)
+				ss = rs.ScopeSpans().AppendEmpty()
+				ss.SetSchemaUrl(fmt.Sprintf("scope-url-%d", i))
+				scope(ss.Scope(), i)
+			}
+			sp := ss.Spans().AppendEmpty()
+			sp.SetName(fmt.Sprintf("name-%d", i))
+			sp.SetTraceID(pcommon.TraceID(id16(i)))
+			sp.SetSpanID(pcommon.SpanID(id8(i)))
+			sp.SetParentSpanID(pcommon.SpanID(id8(i + 1000000)))
+			sp.TraceState().FromRaw(fmt.Sprintf("k=%d", i))
+			sp.Status().SetMessage(fmt.Sprintf("msg-%d", i))
+			sp.Status().SetCode(ptrace.StatusCode(i % 3))
+			sp.SetKind(ptrace.SpanKind(i % 6))
+			sp.SetStartTimestamp(pcommon.Timestamp(1_700_000_000_000_000_000 + uint64(i)*1000))
+			sp.SetEndTimestamp(pcommon.Timestamp(1_700_000_000_000_000_000 + uint64(i)*1000 + uint64(i)))
+			attrs(sp.Attributes(), "span", i)
+			ev := sp.Events().AppendEmpty()
+			ev.SetName(fmt.Sprintf("event-%d", i))
+			ev.SetTimestamp(pcommon.Timestamp(1_700_000_000_000_000_000 + uint64(i)*7))
+			attrs(ev.Attributes(), "ev", i)
+			ln := sp.Links().AppendEmpty()
+			ln.SetTraceID(pcommon.TraceID(id16(i + 5000000)))
+			ln.SetSpanID(pcommon.SpanID(id8(i + 5000000)))
+			ln.TraceState().FromRaw(fmt.Sprintf("l=%d", i))
+			attrs(ln.Attributes(), "ln", i)
+		}
+		return td
+	case 1:
+		ld := plog.NewLogs()
+		var sl plog.ScopeLogs
+		for k := 0; k < n; k++ {
+			i := base + k
+			if own || k == 0 {
+				rl := ld.ResourceLogs().AppendEmpty()
+				rl.SetSchemaUrl(fmt.Sprintf("res-url-%d", i))
+				res(rl.Resource(), i)
+				sl = rl.ScopeLogs().AppendEmpty()
+				sl.SetSchemaUrl(fmt.Sprintf("scope-url-%d", i))
+				scope(sl.Scope(), i)
+			}
+			lr := sl.LogRecords().AppendEmpty()
+			lr.SetSeverityText(fmt.Sprintf("sev-%d", i))
+			switch i % 3 {
+			case 0:
+				lr.Body().SetStr(fmt.Sprintf("body-%d", i))
+			case 1:
+				lr.Body().SetEmptyBytes().FromRaw([]byte(fmt.Sprintf("body-bytes-%d", i)))
+			default:
+				lr.Body().SetEmptyMap().PutStr("k", fmt.Sprintf("body-map-%d", i))
+			}
+			lr.SetTraceID(pcommon.TraceID(id16(i)))
+			lr.SetSpanID(pcommon.SpanID(id8(i)))
+			lr.SetEventName(fmt.Sprintf("event-%d", i))
+			lr.SetTimestamp(pcommon.Timestamp(1_700_000_000_000_000_000 + uint64(i)*1000))
+			lr.SetObservedTimestamp(pcommon.Timestamp(1_700_000_000_000_000_000 + uint64(i)*3000))
+			lr.SetSeverityNumber(plog.SeverityNumber(1 + i%24))
+			attrs(lr.Attributes(), "log", i)
+		}
+		return ld
+	default:
+		md := pmetric.NewMetrics()
+		var sm pmetric.ScopeMetrics
+		for k := 0; k < n; k++ {
+			i := base + k
+			if own || k == 0 {
+				rm := md.ResourceMetrics().AppendEmpty()
+				rm.SetSchemaUrl(fmt.Sprintf("res-url-%d", i))
+				res(rm.Resource(), i)
+				sm = rm.ScopeMetrics().AppendEmpty()
+				sm.SetSchemaUrl(fmt.Sprintf("scope-url-%d", i))
+				scope(sm.Scope(), i)
+			}
+			m := sm.Metrics().AppendEmpty()
+			m.SetName(fmt.Sprintf("metric-%d", i))
+			m.SetDescription(fmt.Sprintf("description-%d", i))
+			m.SetUnit(fmt.Sprintf("unit-%d", i))
+			switch i % 3 {
+			case 0:
+				dp := m.SetEmptyGauge().DataPoints().AppendEmpty()
+				dp.SetIntValue(int64(i))
+				dp.SetTimestamp(pcommon.Timestamp(1_700_000_000_000_000_000 + uint64(i)*11))
+				attrs(dp.Attributes(), "dp", i)
+				ex := dp.Exemplars().AppendEmpty()
+				ex.SetDoubleValue(float64(i))
+				ex.SetTraceID(pcommon.TraceID(id16(i)))
+				ex.SetSpanID(pcommon.SpanID(id8(i)))
+				attrs(ex.FilteredAttributes(), "ex", i)
+			case 1:
+				dp := m.SetEmptySum().DataPoints().AppendEmpty()
+				dp.SetDoubleValue(float64(i) / 3)
+				attrs(dp.Attributes(), "dp", i)
+			default:
+				dp := m.SetEmptyHistogram().DataPoints().AppendEmpty()
+				dp.SetCount(uint64(i))
+				dp.BucketCounts().FromRaw([]uint64{uint64(i), 1})
+				dp.ExplicitBounds().FromRaw([]float64{float64(i)})
+				attrs(dp.Attributes(), "dp", i)
+			}
+		}
+		return md
+	}
+}
+
+// extremeBatch: valid OTLP far outside the sizes the generators draw — very long strings and keys, a very large value, tens of
+// thousands of events / links / attributes / buckets on one item ("no domain restriction on strings or numbers").
+func extremeBatch(sig int) any {
+	long := func(n int, c byte) string { return strings.Repeat(string([]byte{c}), n) }
+	switch sig {
+	case 0:
+		td := ptrace.NewTraces()
+		rs := td.ResourceSpans().AppendEmpty()
+		rs.SetSchemaUrl(long(70000, 'u'))
+		rs.Resource().Attributes().PutStr(long(5000, 'k'), long(2_000_000, 'v'))
+		ss := rs.ScopeSpans().AppendEmpty()
+		ss.Scope().SetName(long(70000, 's'))
+		sp := ss.Spans().AppendEmpty()
+		sp.SetName(long(70000, 'n'))
+		sp.Status().SetMessage(long(70000, 'm'))
+		sp.TraceState().FromRaw(long(70000, 't'))
+		sp.Attributes().PutEmptyBytes(long(3000, 'b')).FromRaw([]byte(long(1_500_000, 'x')))
+		for i := 0; i < 1200; i++ {
+			sp.Attributes().PutInt(fmt.Sprintf("a%d", i), int64(i))
+		}
+		for i := 0; i < 20001; i++ {
+			sp.Events().AppendEmpty().SetName("e")
+			sp.Links().AppendEmpty().SetSpanID(pcommon.SpanID([8]byte{1, 2, 3, 4, byte(i >> 8), byte(i), 1, 1}))
+		}
+		ss.Spans().AppendEmpty().SetName("plain")
+		return td
+	case 1:
+		ld := plog.NewLogs()
+		sl := ld.ResourceLogs().AppendEmpty().ScopeLogs().AppendEmpty()
+		lr := sl.LogRecords().AppendEmpty()
+		lr.Body().SetStr(long(2_000_000, 'b'))
+		lr.SetSeverityText(long(70000, 's'))
+		lr.SetEventName(long(70000, 'e'))
+		lr.Attributes().PutStr(long(5000, 'k'), long(1_200_000, 'v'))
+		lr2 := sl.LogRecords().AppendEmpty()
+		lr2.Body().SetEmptyBytes().FromRaw([]byte(long(1_500_000, 'y')))
+		m := sl.LogRecords().AppendEmpty().Body().SetEmptyMap()
+		for i := 0; i < 20001; i++ {
+			m.PutInt(fmt.Sprintf("k%d", i), int64(i))
+		}
+		return ld
+	default:
+		md := pmetric.NewMetrics()
+		sm := md.ResourceMetrics().AppendEmpty().ScopeMetrics().AppendEmpty()
+		m := sm.Metrics().AppendEmpty()
+		m.SetName(long(70000, 'n'))
+		m.SetUnit(long(70000, 'u'))
+		m.SetDescription(long(1_200_000, 'd'))
+		dp := m.SetEmptyHistogram().DataPoints().AppendEmpty()
+		dp.SetCount(math.MaxUint64)
+		bc := make([]uint64, 20001)
+		eb := make([]float64, 20000)
+		for i := range eb {
+			bc[i], eb[i] = math.MaxUint64, float64(i)
+		}
+		dp.BucketCounts().FromRaw(bc)
+		dp.ExplicitBounds().FromRaw(eb)
+		dp.Attributes().PutStr(long(5000, 'k'), long(1_200_000, 'v'))
+		for i := 0; i < 20001; i++ {
+			dp.Exemplars().AppendEmpty().SetIntValue(math.MinInt64)
+		}
+		g := sm.Metrics().AppendEmpty()
+		g.SetName("g")
+		gp := g.SetEmptyGauge().DataPoints()
+		for i := 0; i < 12000; i++ {
+			gp.AppendEmpty().SetDoubleValue(math.Inf(-1))
+		}
+		return md
+	}
+}
+
+func diagnosticOptions() []cfgpkg.Option {
+	opts := []cfgpkg.Option{cfgpkg.WithSchemaStats(), cfgpkg.WithSchemaUpdates(), cfgpkg.WithRecordStats(), cfgpkg.WithProducerStats(), cfgpkg.WithCompressionRatioStats()}
+	for _, pt := range []string{"SPANS", "LOGS", "UNIVARIATE_METRICS", "SPAN_ATTRS", "LOG_ATTRS", "RESOURCE_ATTRS", "SCOPE_ATTRS", "SPAN_EVENTS", "SPAN_LINKS", "NUMBER_DATA_POINTS",
+		"HISTOGRAM_DATA_POINTS", "NUMBER_DP_ATTRS", "HISTOGRAM_DP_ATTRS", "NUMBER_DP_EXEMPLARS", "HISTOGRAM_DP_EXEMPLARS"} {
+		opts = append(opts, cfgpkg.WithDumpRecordRows(pt, 4))
+	}
+	return opts
+}
+
 func smallTraces() ptrace.Traces { return manySpans(3, true, 1) }
 
 func boundaryCases(tier string) []boundaryCase {
@@ -269,6 +485,13 @@ func boundaryCases(tier string) []boundaryCase {
 			}
 			return []any{td, smallTraces()}
 		}, Expect: []string{"ok", "ok"}},
+	}
+	for sig, name := range []string{"traces", "logs", "metrics"} {
+		sig := sig
+		cs = append(cs,
+			boundaryCase{Name: name + ": extreme sizes (70 KB names, 2 MB values, 20001 children of one item)", Batches: func() []any { return []any{extremeBatch(sig), extremeBatch(sig)} }, Expect: []string{"any", "any"}},
+			boundaryCase{Name: name + ": extreme sizes with WithSchemaStats", Options: []cfgpkg.Option{cfgpkg.WithSchemaStats()}, Batches: func() []any { return []any{extremeBatch(sig), extremeBatch(sig)} }, Expect: []string{"any", "any"}},
+			boundaryCase{Name: name + ": extreme sizes with all diagnostic options", Options: diagnosticOptions(), Batches: func() []any { return []any{distinctRich(sig, 30, 0, true), extremeBatch(sig)} }, Expect: []string{"any", "any"}})
 	}
 	return cs
 }
